@@ -296,6 +296,13 @@ Fixpoint settings_inc (st : fstate) (outs : list out) (inc : Z) (touched : list 
     end
   end.
 
+(* store.try_for_each visits every record once *)
+Fixpoint nodup_keys (t : list (N * obs)) : bool :=
+  match t with
+  | [] => true
+  | (k, _) :: t' => negb (mem_touched k t') && nodup_keys t'
+  end.
+
 Definition step (st : fstate) (l : label) : outcome :=
   match l with
   | LNew sid init =>
@@ -355,6 +362,7 @@ Definition step (st : fstate) (l : label) : outcome :=
     if o_closed o then (match vs with [] => Ok st [] | _ => Stuck 30 end)
     else reclaim_reserved st sid vs
   | LApplySettings new_init touched vs =>
+    if negb (nodup_keys touched) then Stuck 41 else
     let old := c_init st in
     let st0 := set_cinit st new_init in
     if new_init <? old then
